@@ -30,7 +30,7 @@ fn c16_darray() {
         subblock_inventory: Vec::new().into_boxed_slice(),
         overflow_positions: Vec::new().into_boxed_slice(),
     };
-    let da = DArray::<true> { bv: BitVector::default(), ones_inventories: ones, zeroes_inventories: Some(zeros) };
+    let da = DArray::<true> { bv: BitVector::default(), ones_inventories: ones, zeroes_inventories: Some(zeros), ..Default::default() };
     let rep = da.space_usage_byte();
     assert!(within(rep, ret, 8));
     kani::cover!(da.ones_inventories.subblock_inventory.len() == 128, "largest sub-block buffer");
